@@ -9,6 +9,7 @@ open Driver
 def handle (line : String) : String :=
   let l := line.trimAsciiEnd.toString
   if l.startsWith "run " then handleRun l
+  else if l.startsWith "runs " then handleRuns l
   else if l.startsWith "mem " then handleMem l
   else "bad"
 
